@@ -1772,7 +1772,13 @@ def gen_restore_stmt(node, code, codegen):
         target = ''
 
     if target:
-        label_index = code.get_data_label_index(target)
+        data_label = codegen.compilation.data_labels.get(target)
+        if data_label is None:
+            # no DATA statement at or after the label: point past
+            # the last group, so that the next READ is out of data
+            label_index = len(codegen.compilation.data)
+        else:
+            label_index = code.get_data_label_index(data_label)
     else:
         # RESTORE with no label rewinds to the very first DATA item
         label_index = 0
